@@ -181,4 +181,16 @@ theorem floor_signed_full_statement_false :
   revert this
   decide
 
+/-! ### non-vacuity: concrete non-trivial operands (one limb: `-8 = [B - 8]`, `MIN = [HALF]`, `-1 = [WMAX]`) -/
+example : WF [B - 8] ∧ WF [3] ∧ [B - 8] ≠ [] ∧ toInt [3] ≠ 0 ∧ val [3] ≠ 0 := by
+  refine ⟨?_, ?_, by simp, by decide, by decide⟩ <;> intro x hx <;> simp at hx <;> subst hx <;> decide
+example : iCheckedDivRem [B - 8] [3] = (([B - 2], WMAX), [B - 2]) := by decide              -- -8 / 3 = -2 rem -2
+example : iCheckedDivRem [8] [B - 3] = (([B - 2], WMAX), [2]) := by decide                  -- 8 / -3 = -2 rem 2
+example : (iCheckedDivRem [HALF] [WMAX]).1.2 = 0 ∧ (iCheckedDivRem [HALF] [WMAX]).2 = [0] := by decide  -- MIN / -1
+example : iCheckedDivRem [HALF] [HALF, WMAX] = (([1], WMAX), [0, 0]) := by decide           -- mixed widths: I64::MIN / (I128 -2^63) = 1 rem 0
+example : iDivRemUint [B - 8] [3] = ([B - 2], [B - 2]) := by decide
+example : iDivRemFloorUint [B - 8] [3] = ([B - 3], [1]) := by decide                        -- -8 ⌊/⌋ 3 = -3 rem 1
+example : iDivRemFloorUint [HALF] [1] = ([HALF], [0]) := by decide                          -- MIN ⌊/⌋ 1
+example : iCheckedDivRemFloor [8] [B - 3] = (([B - 3], WMAX), [B - 1]) := by decide         -- 8 ⌊/⌋ -3 = -3 rem -1 (right)
+
 end CB.P14
